@@ -23,13 +23,19 @@ def one(d):
         return name, None
     rc, out = sh(f"./check all --repo {t}", cwd="/verif")
     shutil.rmtree(t)
-    res = {}
-    for line in out.splitlines():
+    res, first = {}, {}
+    lines = out.splitlines()
+    for i, line in enumerate(lines):
         if line.startswith("VIOLATION"):
-            res[line.split("property=")[1].split()[0]] = "VIOLATION"
+            p = line.split("property=")[1].split()[0]
+            res[p] = "VIOLATION"
+            j = i - 1
+            while j >= 0 and (lines[j].startswith("VIOLATION") or lines[j].startswith("ANALYSIS-ERROR")):
+                j -= 1
+            first.setdefault(p, lines[j][:260] if j >= 0 else "")
         if line.startswith("ANALYSIS-ERROR"):
             res.setdefault(line.split("property=")[1].split()[0], "ANALYSIS-ERROR")
-    return name, res
+    return name, (res, first)
 
 dirs = [d for d in sorted(glob.glob("/verif/seeded/*")) if os.path.isdir(d) and (not only or os.path.basename(d) in only)]
 with ThreadPoolExecutor(max_workers=4) as ex:
@@ -38,8 +44,10 @@ with ThreadPoolExecutor(max_workers=4) as ex:
         m = json.load(open(mp))
         if res is None:
             print(f"{name}: patch does not apply"); continue
+        res, first = res
         prop = m["property"]
         m["checks_reporting"] = res
+        m["first_report"] = first
         m["caught_by_own_property"] = res.get(prop) == "VIOLATION"
         m["checked_at_repo_head"] = head
         json.dump(m, open(mp, "w"), indent=1); open(mp, "a").write("\n")
